@@ -4,9 +4,10 @@ C17 — argument reduction (exponential type).  Statements about the programs re
 reduction are decided by search (fav/props/c17.py).
 -/
 import FAVerif.Generated.C17
+import FAVerif.Lemmas.ExpRed
 
 namespace FAVerif.Props.C17
-open FAVerif.IR FAVerif.FP FAVerif.Gen.C17
+open FAVerif.IR FAVerif.FP FAVerif.FPQ FAVerif.Gen.C17
 
 abbrev fadd := FAVerif.FP.add
 abbrev fsub := FAVerif.FP.sub
@@ -81,5 +82,230 @@ theorem ln2_enclosure :
     (∃ v, hiPlusLo binary32 consts32 = some v ∧ (if v < ln2Q then ln2Q - v else v - ln2Q) ≤ 55 / 1000000000000000) ∧
     (∃ v, hiPlusLo binary64 consts64 = some v ∧ (if v < ln2Q then ln2Q - v else v - ln2Q) ≤ 12 / 1000000000000000000000000000) := by
   refine ⟨⟨_, rfl, ?_⟩, ⟨_, rfl, ?_⟩, ⟨_, rfl, ?_⟩⟩ <;> decide +kernel
+
+
+def q16 : QFmt := ⟨11, -24, by norm_num⟩
+def V16 : ℚ := 1477 / 1024
+def H16 : ℚ := 11 / 16
+def L16 : ℚ := 185 / 32768
+
+/-- **Exponential-type argument reduction, 16-bit format** (precision 11, emin -24, any round-to-nearest),
+with the documented constants (their bit patterns are tied to these rationals by `exp_constants`): for
+every representable |x| ≤ 11.09, with k = ⌊RN(RN(x·ln2inv) + ½)⌋, r = RN(x − RN(k·ln2hi)), c = −RN(k·ln2lo):
+|k| ≤ 16; the products k·ln2hi and the subtraction are EXACT (r = x − k·ln2hi); k·(ln2hi+ln2lo) + (r + c)
+differs from x only by the rounding error of k·ln2lo, at most 5e-5; |r + c| ≤ 0.361 (< 0.55·ln 2); and
+for k = 0 the reduction is the identity. -/
+theorem exp_reduction_16 (r : ℚ → ℚ) (hr : IsRN q16 r) (x : ℚ) (hx : Rep q16 x) (hX : |x| ≤ 1109 / 100) :
+    let k : ℤ := ⌊r (r (x * V16) + 1 / 2)⌋
+    let rr := r (x - r (k * H16))
+    let c := -r (k * L16)
+    |k| ≤ 16 ∧ rr = x - k * H16 ∧ k * (H16 + L16) + (rr + c) - x = k * L16 - r (k * L16) ∧
+    |k * (H16 + L16) + (rr + c) - x| ≤ 5 / 10 ^ 5 ∧ |rr + c| ≤ 361 / 1000 ∧ (k = 0 → rr = x ∧ c = 0) := by
+  intro k rr c
+  have hu : uro q16 = 1 / 2 ^ 11 := rfl
+  have ht0 : (0 : ℚ) ≤ 2 ^ q16.emin := by positivity
+  have hem : (2 : ℚ) ^ q16.emin ≤ 1 / 2 ^ 24 := by
+    show (2 : ℚ) ^ (-24 : ℤ) ≤ _
+    rw [zpow_neg, ← one_div]
+    exact one_div_le_one_div_of_le (by positivity) (pow_le_pow_right₀ (by norm_num) (by norm_num))
+  have hshort : ∀ k : ℤ, |k| ≤ (16 : ℕ) → Rep q16 (k * H16) := by
+    intro k hk
+    refine ⟨k * 11, -4, ?_, ?_, by norm_num [q16]⟩
+    · show (k : ℚ) * H16 = ((k * 11 : ℤ) : ℚ) * 2 ^ (-4 : ℤ)
+      rw [zpow_neg]; push_cast; norm_num [H16]; ring
+    · rw [abs_mul]
+      have : |k| ≤ 16 := by exact_mod_cast hk
+      show |k| * |(11 : ℤ)| < 2 ^ 11
+      norm_num
+      nlinarith [abs_nonneg k]
+  have key := exp_reduction hr V16 H16 L16 (-4) 16 (1109 / 100) (16 / 1000) (58 / 10000) x (by norm_num [V16])
+    ⟨11, by rw [zpow_neg]; norm_num [H16]⟩ (by norm_num [q16]) (by norm_num [q16]) hshort hx hX
+    (by
+      rw [hu]
+      have h1 := hem; have h0 := ht0
+      generalize (2 : ℚ) ^ q16.emin = t at h1 h0 ⊢
+      norm_num [V16] at h1 ⊢
+      linarith) (by norm_num [V16, H16, abs_le]) (16 / 100000) (by norm_num [V16, H16, L16, abs_le])
+    (by norm_num [V16]) (by norm_num [V16]) (by norm_num [V16])
+  obtain ⟨h1, h2, h3, h4, h5, h6, h7⟩ := key
+  have hkq : |(k : ℚ)| ≤ 16 := by
+    have : ((|k| : ℤ) : ℚ) ≤ ((16 : ℕ) : ℤ) := by exact_mod_cast h1
+    rw [Int.cast_abs] at this; exact_mod_cast this
+  have hkL : |(k : ℚ) * L16| ≤ 16 * L16 := by
+    rw [abs_mul, abs_of_pos (by norm_num [L16] : (0 : ℚ) < L16)]
+    exact mul_le_mul_of_nonneg_right hkq (by norm_num [L16])
+  have h5' : |(k : ℚ) * L16 - r (k * L16)| ≤ 5 / 10 ^ 5 := by
+    refine le_trans h5 ?_
+    rw [hu]
+    have : (1 : ℚ) / 2 ^ 11 * |(k : ℚ) * L16| ≤ 1 / 2 ^ 11 * (16 * L16) := mul_le_mul_of_nonneg_left hkL (by norm_num)
+    refine le_trans (add_le_add this (le_refl _)) ?_
+    have h1 := hem; have h0 := ht0
+    generalize (2 : ℚ) ^ q16.emin = t at h1 h0 ⊢
+    norm_num [L16] at h1 ⊢
+    linarith
+  refine ⟨by exact_mod_cast h1, h2, h4, by rw [h4]; exact h5', ?_, h7⟩
+  have e : rr + c = (x - k * (H16 + L16)) + (k * L16 - r (k * L16)) := by
+    show r (x - r (k * H16)) + -r (k * L16) = _
+    have : r (x - r (k * H16)) = x - k * H16 := h2
+    rw [this]; ring
+  rw [e]
+  refine le_trans (abs_add_le _ _) ?_
+  refine le_trans (add_le_add h6 h5') ?_
+  norm_num [V16]
+
+def q32 : QFmt := ⟨24, -149, by norm_num⟩
+def V32 : ℚ := 12102203 / 8388608
+def H32 : ℚ := 22713 / 32768
+def L32 : ℚ := 6283079 / 4398046511104
+
+/-- **Exponential-type argument reduction, 32-bit format** (precision 24, emin -149, any round-to-nearest),
+with the documented constants (their bit patterns are tied to these rationals by `exp_constants`): for
+every representable |x| ≤ 88.73, with k = ⌊RN(RN(x·ln2inv) + ½)⌋, r = RN(x − RN(k·ln2hi)), c = −RN(k·ln2lo):
+|k| ≤ 128; the products k·ln2hi and the subtraction are EXACT (r = x − k·ln2hi); k·(ln2hi+ln2lo) + (r + c)
+differs from x only by the rounding error of k·ln2lo, at most 2e-11; |r + c| ≤ 0.348 (< 0.55·ln 2); and
+for k = 0 the reduction is the identity. -/
+theorem exp_reduction_32 (r : ℚ → ℚ) (hr : IsRN q32 r) (x : ℚ) (hx : Rep q32 x) (hX : |x| ≤ 8873 / 100) :
+    let k : ℤ := ⌊r (r (x * V32) + 1 / 2)⌋
+    let rr := r (x - r (k * H32))
+    let c := -r (k * L32)
+    |k| ≤ 128 ∧ rr = x - k * H32 ∧ k * (H32 + L32) + (rr + c) - x = k * L32 - r (k * L32) ∧
+    |k * (H32 + L32) + (rr + c) - x| ≤ 2 / 10 ^ 11 ∧ |rr + c| ≤ 348 / 1000 ∧ (k = 0 → rr = x ∧ c = 0) := by
+  intro k rr c
+  have hu : uro q32 = 1 / 2 ^ 24 := rfl
+  have ht0 : (0 : ℚ) ≤ 2 ^ q32.emin := by positivity
+  have hem : (2 : ℚ) ^ q32.emin ≤ 1 / 2 ^ 100 := by
+    show (2 : ℚ) ^ (-149 : ℤ) ≤ _
+    rw [zpow_neg, ← one_div]
+    exact one_div_le_one_div_of_le (by positivity) (pow_le_pow_right₀ (by norm_num) (by norm_num))
+  have hshort : ∀ k : ℤ, |k| ≤ (128 : ℕ) → Rep q32 (k * H32) := by
+    intro k hk
+    refine ⟨k * 22713, -15, ?_, ?_, by norm_num [q32]⟩
+    · show (k : ℚ) * H32 = ((k * 22713 : ℤ) : ℚ) * 2 ^ (-15 : ℤ)
+      rw [zpow_neg]; push_cast; norm_num [H32]; ring
+    · rw [abs_mul]
+      have : |k| ≤ 128 := by exact_mod_cast hk
+      show |k| * |(22713 : ℤ)| < 2 ^ 24
+      norm_num
+      nlinarith [abs_nonneg k]
+  have key := exp_reduction hr V32 H32 L32 (-15) 128 (8873 / 100) (2 / 100000) (15 / 10000000) x (by norm_num [V32])
+    ⟨22713, by rw [zpow_neg]; norm_num [H32]⟩ (by norm_num [q32]) (by norm_num [q32]) hshort hx hX
+    (by
+      rw [hu]
+      have h1 := hem; have h0 := ht0
+      generalize (2 : ℚ) ^ q32.emin = t at h1 h0 ⊢
+      norm_num [V32] at h1 ⊢
+      linarith) (by norm_num [V32, H32, abs_le]) (3 / 10 ^ 8) (by norm_num [V32, H32, L32, abs_le])
+    (by norm_num [V32]) (by norm_num [V32]) (by norm_num [V32])
+  obtain ⟨h1, h2, h3, h4, h5, h6, h7⟩ := key
+  have hkq : |(k : ℚ)| ≤ 128 := by
+    have : ((|k| : ℤ) : ℚ) ≤ ((128 : ℕ) : ℤ) := by exact_mod_cast h1
+    rw [Int.cast_abs] at this; exact_mod_cast this
+  have hkL : |(k : ℚ) * L32| ≤ 128 * L32 := by
+    rw [abs_mul, abs_of_pos (by norm_num [L32] : (0 : ℚ) < L32)]
+    exact mul_le_mul_of_nonneg_right hkq (by norm_num [L32])
+  have h5' : |(k : ℚ) * L32 - r (k * L32)| ≤ 2 / 10 ^ 11 := by
+    refine le_trans h5 ?_
+    rw [hu]
+    have : (1 : ℚ) / 2 ^ 24 * |(k : ℚ) * L32| ≤ 1 / 2 ^ 24 * (128 * L32) := mul_le_mul_of_nonneg_left hkL (by norm_num)
+    refine le_trans (add_le_add this (le_refl _)) ?_
+    have h1 := hem; have h0 := ht0
+    generalize (2 : ℚ) ^ q32.emin = t at h1 h0 ⊢
+    norm_num [L32] at h1 ⊢
+    linarith
+  refine ⟨by exact_mod_cast h1, h2, h4, by rw [h4]; exact h5', ?_, h7⟩
+  have e : rr + c = (x - k * (H32 + L32)) + (k * L32 - r (k * L32)) := by
+    show r (x - r (k * H32)) + -r (k * L32) = _
+    have : r (x - r (k * H32)) = x - k * H32 := h2
+    rw [this]; ring
+  rw [e]
+  refine le_trans (abs_add_le _ _) ?_
+  refine le_trans (add_le_add h6 h5') ?_
+  norm_num [V32]
+
+def q64 : QFmt := ⟨53, -1074, by norm_num⟩
+def V64 : ℚ := 3248660424278399 / 2251799813685248
+def H64 : ℚ := 2977044471 / 4294967296
+def L64 : ℚ := 3691024475790907 / 19342813113834066795298816
+
+/-- **Exponential-type argument reduction, 64-bit format** (precision 53, emin -1074, any round-to-nearest),
+with the documented constants (their bit patterns are tied to these rationals by `exp_constants`): for
+every representable |x| ≤ 709.79, with k = ⌊RN(RN(x·ln2inv) + ½)⌋, r = RN(x − RN(k·ln2hi)), c = −RN(k·ln2lo):
+|k| ≤ 1024; the products k·ln2hi and the subtraction are EXACT (r = x − k·ln2hi); k·(ln2hi+ln2lo) + (r + c)
+differs from x only by the rounding error of k·ln2lo, at most 3e-23; |r + c| ≤ 0.347 (< 0.55·ln 2); and
+for k = 0 the reduction is the identity. -/
+theorem exp_reduction_64 (r : ℚ → ℚ) (hr : IsRN q64 r) (x : ℚ) (hx : Rep q64 x) (hX : |x| ≤ 70979 / 100) :
+    let k : ℤ := ⌊r (r (x * V64) + 1 / 2)⌋
+    let rr := r (x - r (k * H64))
+    let c := -r (k * L64)
+    |k| ≤ 1024 ∧ rr = x - k * H64 ∧ k * (H64 + L64) + (rr + c) - x = k * L64 - r (k * L64) ∧
+    |k * (H64 + L64) + (rr + c) - x| ≤ 3 / 10 ^ 23 ∧ |rr + c| ≤ 347 / 1000 ∧ (k = 0 → rr = x ∧ c = 0) := by
+  intro k rr c
+  have hu : uro q64 = 1 / 2 ^ 53 := rfl
+  have ht0 : (0 : ℚ) ≤ 2 ^ q64.emin := by positivity
+  have hem : (2 : ℚ) ^ q64.emin ≤ 1 / 2 ^ 100 := by
+    show (2 : ℚ) ^ (-1074 : ℤ) ≤ _
+    rw [zpow_neg, ← one_div]
+    exact one_div_le_one_div_of_le (by positivity) (pow_le_pow_right₀ (by norm_num) (by norm_num))
+  have hshort : ∀ k : ℤ, |k| ≤ (1024 : ℕ) → Rep q64 (k * H64) := by
+    intro k hk
+    refine ⟨k * 2977044471, -32, ?_, ?_, by norm_num [q64]⟩
+    · show (k : ℚ) * H64 = ((k * 2977044471 : ℤ) : ℚ) * 2 ^ (-32 : ℤ)
+      rw [zpow_neg]; push_cast; norm_num [H64]; ring
+    · rw [abs_mul]
+      have : |k| ≤ 1024 := by exact_mod_cast hk
+      show |k| * |(2977044471 : ℤ)| < 2 ^ 53
+      norm_num
+      nlinarith [abs_nonneg k]
+  have key := exp_reduction hr V64 H64 L64 (-32) 1024 (70979 / 100) (3 / 10 ^ 13) (2 / 10 ^ 10) x (by norm_num [V64])
+    ⟨2977044471, by rw [zpow_neg]; norm_num [H64]⟩ (by norm_num [q64]) (by norm_num [q64]) hshort hx hX
+    (by
+      rw [hu]
+      have h1 := hem; have h0 := ht0
+      generalize (2 : ℚ) ^ q64.emin = t at h1 h0 ⊢
+      norm_num [V64] at h1 ⊢
+      linarith) (by norm_num [V64, H64, abs_le]) (1 / 10 ^ 16) (by norm_num [V64, H64, L64, abs_le])
+    (by norm_num [V64]) (by norm_num [V64]) (by norm_num [V64])
+  obtain ⟨h1, h2, h3, h4, h5, h6, h7⟩ := key
+  have hkq : |(k : ℚ)| ≤ 1024 := by
+    have : ((|k| : ℤ) : ℚ) ≤ ((1024 : ℕ) : ℤ) := by exact_mod_cast h1
+    rw [Int.cast_abs] at this; exact_mod_cast this
+  have hkL : |(k : ℚ) * L64| ≤ 1024 * L64 := by
+    rw [abs_mul, abs_of_pos (by norm_num [L64] : (0 : ℚ) < L64)]
+    exact mul_le_mul_of_nonneg_right hkq (by norm_num [L64])
+  have h5' : |(k : ℚ) * L64 - r (k * L64)| ≤ 3 / 10 ^ 23 := by
+    refine le_trans h5 ?_
+    rw [hu]
+    have : (1 : ℚ) / 2 ^ 53 * |(k : ℚ) * L64| ≤ 1 / 2 ^ 53 * (1024 * L64) := mul_le_mul_of_nonneg_left hkL (by norm_num)
+    refine le_trans (add_le_add this (le_refl _)) ?_
+    have h1 := hem; have h0 := ht0
+    generalize (2 : ℚ) ^ q64.emin = t at h1 h0 ⊢
+    norm_num [L64] at h1 ⊢
+    linarith
+  refine ⟨by exact_mod_cast h1, h2, h4, by rw [h4]; exact h5', ?_, h7⟩
+  have e : rr + c = (x - k * (H64 + L64)) + (k * L64 - r (k * L64)) := by
+    show r (x - r (k * H64)) + -r (k * L64) = _
+    have : r (x - r (k * H64)) = x - k * H64 := h2
+    rw [this]; ring
+  rw [e]
+  refine le_trans (abs_add_le _ _) ?_
+  refine le_trans (add_le_add h6 h5') ?_
+  norm_num [V64]
+
+/-- the documented constants (bit patterns in the regenerated programs, see `exp_shape`) are these rationals -/
+theorem exp_constants :
+    ((decode binary16 consts16.1).toRat?, (decode binary16 consts16.2.2.1).toRat?, (decode binary16 consts16.2.2.2).toRat?) = (some V16, some H16, some L16) ∧
+    ((decode binary32 consts32.1).toRat?, (decode binary32 consts32.2.2.1).toRat?, (decode binary32 consts32.2.2.2).toRat?) = (some V32, some H32, some L32) ∧
+    ((decode binary64 consts64.1).toRat?, (decode binary64 consts64.2.2.1).toRat?, (decode binary64 consts64.2.2.2).toRat?) = (some V64, some H64, some L64) ∧
+    (binary16.p, binary16.emin, binary32.p, binary32.emin, binary64.p, binary64.emin) = (q16.p, q16.emin, q32.p, q32.emin, q64.p, q64.emin) := by
+  decide +kernel
+
+/-- against the 40-digit rational for ln 2 (`ln2_enclosure`): k·ln2Q + (r + c) is within 1.2e-4 / 2e-11 / 4e-23
+of x over the whole domain — far below one ULP of x wherever k ≠ 0 (|x| ≥ 1/4: ulp(x) ≥ 2^-12 / 2^-25 / 2^-54). -/
+theorem exp_reconstruction_bounds :
+    (16 : ℚ) * |ln2Q - (H16 + L16)| + 5 / 10 ^ 5 ≤ 12 / 10 ^ 5 ∧
+    (128 : ℚ) * |ln2Q - (H32 + L32)| + 2 / 10 ^ 11 ≤ 3 / 10 ^ 11 ∧
+    (1024 : ℚ) * |ln2Q - (H64 + L64)| + 3 / 10 ^ 23 ≤ 5 / 10 ^ 23 ∧
+    (361 / 1000 : ℚ) ≤ 55 / 100 * ln2Q := by
+  refine ⟨?_, ?_, ?_, ?_⟩ <;> norm_num [ln2Q, H16, L16, H32, L32, H64, L64, abs_le, abs_of_nonneg, abs_of_nonpos] <;> norm_num [abs_le]
 
 end FAVerif.Props.C17
